@@ -23,5 +23,9 @@ func run(e *Env) error {
 	} else if done {
 		return nil
 	}
+	// the Go zero value of every type under every preset (never touched by a decoder), against the Spec's default value
+	if err := s.ZeroCases(e, e.N(6000, 40000)); err != nil {
+		return err
+	}
 	return s.CodecCases(e, e.N(600, 3000), e.N(3, 6), e.N(4, 8), true)
 }
